@@ -1,6 +1,6 @@
 (* Extraction of the executable model to OCaml.  ExtrOcamlBasic only: bool, option, unit, list, prod,
    sumbool, sumor are mapped to OCaml's types; nat, N, positive, Z stay Coq datatypes. *)
 From Coq Require Import Extraction ExtrOcamlBasic.
-From LolModel Require Import Policy.
+From LolModel Require Import Policy Rewriter.
 Extraction Language OCaml.
-Extraction "model.ml" l1_case.
+Extraction "model.ml" l1_case l2_case.
